@@ -17,6 +17,13 @@ so `effectsOfOut` must not re-format it):
   without edge suffix, Enc/Abs/Speed/Raw with and without edge suffix (the suffix of a value event carries no
   information), signed values over the full ranges, map, all 29 keys, capability lists in any order with duplicates,
   SysStat with any subset/order, `;`-lists, registers; Press = press then release.
+* `decOut_context_free` : for ALL line lists (no domain hypothesis) the effects of the decoded batch are the reader's effects of
+  every well-formed / non-grammar line and, for every line the grammar says nothing about (`readLine = .outside`:
+  `_panelType=Foo`, `EnvironmentalHealth=Weird`, `_support=Foo`, `SysStat=Foo:5`, `HWC#5=Enc` …), exactly the effects that line
+  has when decoded alone (`Spec.Out.readOutboundWith`), in line order — no line repeats, drops or alters the message of a
+  neighbour.  `decOut_line_local` : `decOut (a ++ b) = decOut a ++ decOut b`; `readOutboundWith_eq` : on `inDomainLines` the
+  reading is `readOutbound`.  The check evaluates `readOutboundWith` on the implementation with `alone l` = what the
+  implementation returns for `[l]` (`dout.ctx` records).
 * `value_edge_ignored` : `HWC#id.edge=Kind:v` (Kind one of Enc, Speed, Abs, Raw; every id, every admitted edge, every
   value numeral) is read AND decoded exactly as `HWC#id=Kind:v`.
 * `nongrammar_silent` : a line whose keyword / key is not part of the grammar (also `key=` without value, blank line,
@@ -133,6 +140,75 @@ theorem decOut_sound (o : OutOracle) (ls : List Bytes) (hfmt : ∀ p t, o.fmtF p
     cases hx : decLine repaired o l with
     | none => simp [hx, lineEffects]
     | some m => simp [hx, lineEffects]
+
+/-- the decoder treats every line on its own: a batch decodes to the concatenation of its lines decoded alone -/
+theorem decOut_line_local (o : OutOracle) (a b : List Bytes) : decOut o (a ++ b) = decOut o a ++ decOut o b := by
+  unfold decOut decOutV
+  exact List.filterMap_append
+
+/-- **No line changes what its neighbours denote** (ALL line lists, no domain hypothesis): the effects of the decoded
+batch are the reader's effects of every well-formed / non-grammar line, in line order, and for every line the grammar
+says nothing about (`readLine = .outside`: `_panelType=Foo`, `EnvironmentalHealth=Weird`, `HWC#5=Enc`, `SysStat=Foo:5` …)
+exactly the effects that line has when decoded alone — in particular such a line never repeats, drops or alters the
+message of the line before or after it.  The check evaluates `readOutboundWith` on the implementation with `alone l` =
+what the implementation returns for `[l]` (`dout.ctx` records). -/
+theorem decOut_context_free (o : OutOracle) (ls : List Bytes) (hfmt : ∀ p t, o.fmtF p t = t) :
+    (decOut o ls).flatMap (effectsOfOut o) =
+      readOutboundWith o (fun l => (decOut o [l]).flatMap (effectsOfOut o)) ls := by
+  unfold readOutboundWith
+  induction ls with
+  | nil => rfl
+  | cons l rest ih =>
+    have hsplit : decOut o (l :: rest) = decOut o [l] ++ decOut o rest := decOut_line_local o [l] rest
+    rw [hsplit, List.flatMap_append, ih, List.flatMap_cons]
+    congr 1
+    unfold readLineWith
+    cases hr : readLine o l with
+    | outside => rfl
+    | nonGrammar =>
+      have hd := decLine_sound o l hfmt (by rw [hr]; simp)
+      rw [hr] at hd
+      simp only [decOut, decOutV, List.filterMap_cons, List.filterMap_nil]
+      cases hx : decLine repaired o l with
+      | none => simp [LineClass.effects]
+      | some m => simpa [hx, lineEffects] using hd
+    | grammar effs =>
+      have hd := decLine_sound o l hfmt (by rw [hr]; simp)
+      rw [hr] at hd
+      simp only [decOut, decOutV, List.filterMap_cons, List.filterMap_nil]
+      cases hx : decLine repaired o l with
+      | none => simpa [hx, lineEffects] using hd
+      | some m => simpa [hx, lineEffects] using hd
+
+/-- on the domain of `decOut_sound` the two readings coincide -/
+theorem readOutboundWith_eq (o : OutOracle) (alone : Bytes → List Effect) (ls : List Bytes) (h : inDomainLines o ls = true) :
+    readOutboundWith o alone ls = readOutbound o ls := by
+  unfold inDomainLines at h
+  rw [List.all_eq_true] at h
+  unfold readOutboundWith readOutbound
+  induction ls with
+  | nil => rfl
+  | cons l rest ih =>
+    have hl : readLine o l ≠ .outside := by simpa using h l (by simp)
+    simp only [List.flatMap_cons]
+    rw [ih (fun x hx => h x (by simp [hx]))]
+    congr 1
+    unfold readLineWith
+    cases hr : readLine o l with
+    | outside => exact absurd hr hl
+    | nonGrammar => rfl
+    | grammar effs => rfl
+
+/-- non-vacuity: an enumerated value outside its enumeration between two events: the reading has exactly the two events
+(the line alone decodes to nothing), so a decoder that re-appends the previous message there violates the statement -/
+example : readLine testOracle (asc "_panelType=Foo") = .outside ∧
+    (decOut testOracle [asc "HWC#7=Down", asc "_panelType=Foo", asc "HWC#7=Up"]).flatMap (effectsOfOut testOracle) =
+      [.event .binary 7 0 true 0, .event .binary 7 0 false 0] ∧
+    readOutboundWith testOracle (fun l => (decOut testOracle [l]).flatMap (effectsOfOut testOracle))
+      [asc "HWC#7=Down", asc "_panelType=Foo", asc "HWC#7=Up"] = [.event .binary 7 0 true 0, .event .binary 7 0 false 0] ∧
+    readOutboundWith testOracle (fun _ => [.flow (asc "ping")])
+      [asc "HWC#7=Down", asc "_panelType=Foo"] = [.event .binary 7 0 true 0, .flow (asc "ping")] := by
+  decide
 
 /-- **Non-grammar lines are silent**: never an event or a report -/
 theorem nongrammar_silent (o : OutOracle) (l : Bytes) (hfmt : ∀ p t, o.fmtF p t = t) (h : readLine o l = .nonGrammar) :
